@@ -15,6 +15,7 @@ import (
 	"sort"
 	"strings"
 	"time"
+	"unsafe"
 )
 
 // Universe describes the unions and enums of one program.
@@ -242,7 +243,13 @@ func (b *builder) fill(v reflect.Value, depth int, nonEmpty bool) {
 		for i := 0; i < t.NumField(); i++ {
 			f := t.Field(i)
 			if !f.IsExported() {
-				continue // cannot be set; encoding/json ignores it (promoted fields of unexported embedded structs stay zero)
+				// encoding/json ignores it, except for an embedded struct of an unexported type whose
+				// exported fields are promoted: those are filled through the address (reflect refuses Set)
+				if f.Anonymous && f.Type.Kind() == reflect.Struct && v.CanAddr() {
+					inner := reflect.NewAt(f.Type, unsafe.Pointer(v.Field(i).UnsafeAddr())).Elem()
+					b.fill(inner, depth, false)
+				}
+				continue
 			}
 			tag := f.Tag.Get("json")
 			if tag == "-" {
